@@ -10,6 +10,7 @@ use cgtv::rat::{Rat, tol_proceeds};
 use cgtv::summary::{RepSum, compare, summarize};
 use cgtv::{Counters, Finding, guarded};
 use chrono::NaiveDate;
+use rust_decimal::Decimal;
 use serde::Deserialize;
 use serde_json::json;
 use std::io::Write;
@@ -51,6 +52,90 @@ fn status(r: &Res) -> &'static str {
 
 fn pre_split(timing: &str, d_idx: usize, x: usize) -> bool {
     if timing == "end" { d_idx <= x } else { d_idx < x }
+}
+
+/// The extension law at a scale no bounded model reaches: savings-plan ledgers of 150-200 lines (70+ monthly purchases of
+/// one fund, an accumulation every December, an order-sensitive same-day ACCUMULATION + CAPRETURN pair, occasional sales, a
+/// second security listed as a block of its own so that the file is NOT in date order), cut at a date; the prefix alone and
+/// the whole ledger must agree on every disposal of the prefix and on its acceptance.  Seeded; implementation vs implementation.
+fn long_extend(seeds: u64, config: &cgt_core::Config, cnt: &mut Counters) -> Vec<Finding> {
+    use cgt_core::{Currency, CurrencyAmount, Operation};
+    use rand::rngs::StdRng;
+    use rand::{Rng, SeedableRng};
+    let gbp = |x: i64| CurrencyAmount::new(Decimal::new(x, 2), Currency::GBP);
+    let d = |y: i32, m: u32, dd: u32| NaiveDate::from_ymd_opt(y, m, dd).unwrap_or_default();
+    let mut out = Vec::new();
+    for seed in 0..seeds {
+        let mut rng = StdRng::seed_from_u64(seed * 7919 + 5);
+        // 66..71 purchase months from January 2015: the last one is November 2020 at the latest, so that nothing of the
+        // prefix lies within 30 days of the later transactions and no cost event is among them (C12's precondition)
+        let months = 66 + (seed as u32 % 6);
+        let mut fund: Vec<Transaction> = Vec::new();
+        let mut held: i64 = 0;
+        for k in 0..months {
+            let (y, m) = (2015 + (k / 12) as i32, 1 + k % 12);
+            let q = rng.gen_range(5..=12);
+            fund.push(Transaction { date: d(y, m, 15), ticker: "FUND".into(), operation: Operation::Buy { amount: Decimal::from(q), price: gbp(rng.gen_range(900..1300)), fees: gbp(rng.gen_range(0..150)) } });
+            held += q;
+            if m == 12 {
+                fund.push(Transaction { date: d(y, 12, 31), ticker: "FUND".into(), operation: Operation::Accumulation { amount: Decimal::from(held), total_value: gbp(rng.gen_range(300..900)), tax_paid: gbp(0) } });
+            }
+            if k % 11 == 7 && held > 30 {
+                let sq = rng.gen_range(10..=25);
+                fund.push(Transaction { date: d(y, m, 16), ticker: "FUND".into(), operation: Operation::Sell { amount: Decimal::from(sq), price: gbp(rng.gen_range(1000..1500)), fees: gbp(100) } });
+                held -= sq;
+            }
+        }
+        // BOND: bought once, an accumulation and a capital return on one day; the return fits only after the accumulation
+        let mut bond: Vec<Transaction> = vec![
+            Transaction { date: d(2019, 5, 1), ticker: "BOND".into(), operation: Operation::Buy { amount: Decimal::from(10), price: gbp(1000), fees: gbp(0) } },
+            Transaction { date: d(2019, 5, 31), ticker: "BOND".into(), operation: Operation::Accumulation { amount: Decimal::from(10), total_value: gbp(5000), tax_paid: gbp(0) } },
+            Transaction { date: d(2019, 5, 31), ticker: "BOND".into(), operation: Operation::CapReturn { amount: Decimal::from(10), total_value: gbp(12000), fees: gbp(0) } },
+            Transaction { date: d(2019, 9, 2), ticker: "BOND".into(), operation: Operation::Sell { amount: Decimal::from(4), price: gbp(900), fees: gbp(0) } },
+        ];
+        for k in 0..(8 + seed as u32 % 6) {
+            bond.push(Transaction { date: d(2019 + ((9 + k) / 12) as i32, 1 + (9 + k) % 12, 20), ticker: "BOND".into(), operation: Operation::Buy { amount: Decimal::from(2), price: gbp(rng.gen_range(300..400)), fees: gbp(0) } });
+        }
+        let cut = d(2020, 11, 30);
+        let mut all = fund.clone();
+        all.extend(bond.clone());               // one block per security: not in date order
+        // later transactions: purchases and a sale, more than 30 days after the cut
+        for k in 0..(1 + seed as u32 % 4) {
+            all.push(Transaction { date: d(2021, 3 + k, 1), ticker: if k % 2 == 0 { "FUND" } else { "BOND" }.into(), operation: Operation::Buy { amount: Decimal::from(10), price: gbp(1100), fees: gbp(0) } });
+        }
+        all.push(Transaction { date: d(2021, 9, 1), ticker: "FUND".into(), operation: Operation::Sell { amount: Decimal::from(5), price: gbp(1400), fees: gbp(0) } });
+        let prefix: Vec<Transaction> = all.iter().filter(|t| t.date <= cut).cloned().collect();
+        let (ra, rb) = (run(&prefix, config), run(&all, config));
+        cnt.add("executions", 2);
+        cnt.inc("long_pairs");
+        let input = format!("--- prefix ({} lines)\n{}--- whole ledger: the prefix plus\n{}", prefix.len(), to_dsl(&prefix), to_dsl(&all.iter().filter(|t| t.date > cut).cloned().collect::<Vec<_>>()));
+        let mut push = |kind: &str, detail: String| out.push(Finding { prop: "C12".into(), kind: kind.into(), case: seed as usize, detail, input: input.clone(), data: json!({"long": true}) });
+        match (&ra, &rb) {
+            (Ok(Ok(a)), Ok(Ok(b))) => {
+                let sa = summarize(a, None);
+                let mut sb = summarize(b, None);
+                sb.disposals.retain(|k, _| k.1 <= cut);
+                let (mut sa2, mut sb2) = (sa.clone(), sb.clone());
+                sa2.holdings.clear();
+                sb2.holdings.clear();
+                let df = compare(&sa2, &sb2, tol_proceeds(), false);
+                if !df.deep.is_empty() || !df.shallow.is_empty() {
+                    let mut allv = df.deep.clone();
+                    allv.extend(df.shallow.clone());
+                    push("relation_broken", format!("extend law broken on a long ledger ({} + {} lines): {}", prefix.len(), all.len() - prefix.len(), allv.iter().take(4).cloned().collect::<Vec<_>>().join("; ")));
+                }
+            }
+            (Ok(Ok(_)), Ok(Err(msg))) => {
+                if msg.contains("2019-") || msg.contains("2020-") || msg.contains("2018-") || msg.contains("2017-") || msg.contains("2016-") || msg.contains("2015-") {
+                    push("prefix_rejected_by_suffix", format!("prefix accepted alone, but with later transactions it is refused for a prefix date: {msg}"));
+                }
+            }
+            (Ok(Err(m1)), Ok(Ok(_))) => push("suffix_legitimises_prefix", format!("prefix refused alone ({m1}) but accepted with later transactions")),
+            (Err(p), _) | (_, Err(p)) => push("panic", format!("calculate panicked: {p}")),
+            _ => {}
+        }
+    }
+    out
 }
 
 fn main() {
@@ -255,11 +340,16 @@ fn main() {
         (findings, cnt)
     });
     let mut cnt = Counters::default();
+    let long_findings = if pairs.first().map(|p| p.par.law == "extend").unwrap_or(false) { long_extend(24, &config, &mut cnt) } else { Vec::new() };
     let mut w = std::io::BufWriter::new(std::fs::File::create(&out).unwrap_or_else(|e| {
         eprintln!("cannot write {out}: {e}");
         std::process::exit(2);
     }));
     let mut nf = 0usize;
+    for f in &long_findings {
+        nf += 1;
+        let _ = writeln!(w, "{}", serde_json::to_string(f).unwrap_or_default());
+    }
     for (fs, c) in &results {
         cnt.merge(c);
         for f in fs {
